@@ -424,8 +424,14 @@ func paramNames(c *Contract, fn *ssa.Function, sig *types.Signature) ([]string, 
 	var names []string
 	var ts []types.Type
 	if fn != nil && len(fn.Params) > 0 {
-		for _, p := range fn.Params {
-			names = append(names, p.Name())
+		for i, p := range fn.Params {
+			n := p.Name()
+			// a func contract may fix the names it uses for the parameters (by position): renaming a
+			// parameter or receiver in the code then does not touch the contract
+			if c != nil && c.Kind == "func" && len(c.Params) == len(fn.Params) {
+				n = c.Params[i]
+			}
+			names = append(names, n)
 			ts = append(ts, p.Type())
 		}
 		return names, ts
